@@ -260,6 +260,7 @@ func cmdCheck(args []string) {
 	var funcsUnder []string
 	var knownPrinted []string
 	unproved := 0
+	var slow []slowOb
 	for _, r := range results {
 		funcsUnder = append(funcsUnder, r.Func)
 		for _, a := range r.Assumptions {
@@ -314,6 +315,9 @@ func cmdCheck(args []string) {
 				continue
 			}
 			total++
+			if ob.Status == "unsat" && ob.Time > 2 {
+				slow = append(slow, slowOb{ob.Name, ob.Solver, ob.Time})
+			}
 			if ob.Status == "unsat" {
 				discharged++
 				bySolver[ob.Solver]++
@@ -408,6 +412,7 @@ func cmdCheck(args []string) {
 		"discharged_by":      bySolver,
 		"solver_time_s":      round3(solveTime),
 		"samples":            samples,
+		"slowest_obligations": slowest(slow),
 		"checker_cmd":        fmt.Sprintf("/verif/bin/govc check %s (VC generation over go/ssa of /repo, tags=verif; z3-new 5.1.0 batch then z3-new/z3 4.8.12/cvc5 1.0.3 raced per obligation, %ds limit)", id, timeout),
 		"trusted_base":       sortedKeys(assumptions),
 		"bounded":            bounded,
@@ -472,4 +477,23 @@ func runReplay(verif, name, id string, ob *Obligation, repo string) (string, boo
 	cmd.Dir = verif
 	out, err := cmd.CombinedOutput()
 	return string(out), err == nil
+}
+
+type slowOb struct {
+	Name   string
+	Solver string
+	Time   float64
+}
+
+// the obligations that took longest to discharge (stability margin against the per-obligation limit)
+func slowest(all []slowOb) []map[string]interface{} {
+	sort.Slice(all, func(i, j int) bool { return all[i].Time > all[j].Time })
+	var out []map[string]interface{}
+	for i, o := range all {
+		if i >= 8 {
+			break
+		}
+		out = append(out, map[string]interface{}{"obligation": o.Name, "solver": o.Solver, "time_s": round3(o.Time)})
+	}
+	return out
 }
